@@ -65,12 +65,16 @@ def heavy_mass(smi):
     return Descriptors.HeavyAtomMolWt(Chem.MolFromSmiles(smi))
 
 
-def run_ensemble(obj, seed):
+def run_ensemble(obj, seed, interleave=False):
     rng = probe.RecordingRNG(seed)
     masses = {}
     n = 0
     it = probe.system_generator(obj, rng)
+    # a second ensemble of the same object advanced alternately (its own generator): must not disturb the first
+    other = iter(probe.system_generator(obj, np.random.default_rng(seed + 5))) if interleave else None
     for mg in it:
+        if other is not None:
+            next(other, None)
         smi = mg.smiles
         masses[smi] = masses.get(smi, 0.0) + float(mg.weight)
         n += 1
@@ -115,7 +119,7 @@ def check(acc, smis, frac, nmol, kinds, seed):
     sig = {"n": len(smis)}
 
     def shares(seed_):
-        st_, res = probe.guarded(lambda: run_ensemble(obj, seed_), seconds=900)
+        st_, res = probe.guarded(lambda: run_ensemble(obj, seed_, interleave=(seed % 3 == 1)), seconds=900)
         if st_ != "ok":
             return None
         masses, n, log = res
@@ -133,6 +137,8 @@ def check(acc, smis, frac, nmol, kinds, seed):
             r = r_again
             acc.label("second_ensemble_of_the_same_object")
     sh, n, log, G, foreign = r
+    if seed % 3 == 1:
+        acc.label("two_ensembles_of_the_same_object_advanced_alternately")
     acc.case((text, seed) if nontrivial else None, labels=[f"n:{len(smis)}", f"ratio:{min(100, int(ratio) // 5 * 5)}"])
     if foreign:
         acc.violation("foreign_member", f"ensemble of {text!r} contains {foreign[:3]}", case, sig, size=len(text))
